@@ -18,7 +18,8 @@
 (* The projection `obs` holds bank balances / supplies read from x/bank,   *)
 (* the same through the balanceOf / totalSupply views (eth_call), the      *)
 (* allowance table read through the allowance view of EACH token and       *)
-(* through the keeper (sparse: "owner>spender" -> value, absent = 0).      *)
+(* through the keeper's getter (per token when the keeper has a            *)
+(* contract-scoped getter; sparse: "owner>spender" -> value, absent = 0).  *)
 (*                                                                         *)
 (* Every step is deterministic: the expected outcome is computed with      *)
 (* CallResult / SendResult of Erc20Cpc.tla from the model state and the    *)
@@ -47,7 +48,7 @@ Spenders  == ToSet(Trace[1].spenders)
 FeeToken  == "A"
 
 VARIABLES l, err, dev, cls
-tvars == <<bal, supply, allow, n, last, logs, burnt, l, err, dev, cls>>
+tvars == <<bal, supply, allow, n, last, logs, burnt, hist, l, err, dev, cls>>
 
 OK == <<"ok", "">>
 Ev == Trace[l]
@@ -80,8 +81,8 @@ ObsCheck(o, X) ==
     THEN <<"ViewBal", "balanceOf-differs-from-bank">>
   ELSE IF \E t \in TraceTokens : o.supplyV[t] # N(o.supply[t])
     THEN <<"ViewSupply", "totalSupply-differs-from-bank">>
-  ELSE IF \E ow \in Owners, s \in Spenders : \A t \in TraceTokens : AllowObs(o.allowK, ow, s) # AllowObs(o.allowV[t], ow, s)
-    THEN <<"AllowStore", "keeper-table-differs-from-every-view">>
+  ELSE IF \E t \in TraceTokens, ow \in Owners, s \in Spenders : AllowObs(o.allowK[t], ow, s) # AllowObs(o.allowV[t], ow, s)
+    THEN <<"AllowStore", "keeper-table-differs-from-the-allowance-view">>
   ELSE IF o.strayAllow # 0 THEN <<"AllowStore", "entries-outside-the-universe">>
   ELSE OK
 
@@ -109,7 +110,7 @@ TrGenesis ==
      /\ allow' = [t \in TraceTokens |-> [ow \in TraceHolders |-> [s \in TraceHolders |-> N(0)]]]
      /\ LET c == ObsCheck(o, [bal |-> bal', supply |-> supply', allow |-> allow']) IN
         IF c = OK THEN UNCHANGED err ELSE err' = <<l, c[1], c[2]>> /\ PrintT(<<"LAWBROKEN", l, c[1], c[2]>>)
-  /\ n' = 0 /\ UNCHANGED <<last, logs, burnt, dev>>
+  /\ n' = 0 /\ UNCHANGED <<last, logs, burnt, hist, dev>>
   /\ cls' = Bump(cls, "traces")
 
 TrCall ==
@@ -129,9 +130,10 @@ TrCall ==
            ELSE IF "D5" \in Known /\ cd = OK
              THEN Adopt(Xd) /\ dev' = dev \cup {"D5"} /\ UNCHANGED err
                   /\ PrintT(<<"DEVIATION", l, "D5", cp[1], cp[2]>>)
-           ELSE err' = <<l, cp[1], cp[2]>> /\ PrintT(<<"LAWBROKEN", l, cp[1], cp[2]>>) /\ UNCHANGED <<bal, supply, allow, dev>>
+           ELSE LET c == IF "D5" \in Known /\ dev # {} THEN cd ELSE cp IN
+                err' = <<l, c[1], c[2]>> /\ PrintT(<<"LAWBROKEN", l, c[1], c[2]>>) /\ UNCHANGED <<bal, supply, allow, dev>>
         /\ cls' = Bump(Bump(cls, e.method \o "." \o outcome), "via." \o e.via)
-  /\ n' = n + 1 /\ UNCHANGED <<last, logs, burnt>>
+  /\ n' = n + 1 /\ UNCHANGED <<last, logs, burnt, hist>>
 
 TrBankSend ==
   /\ Ev.ev = "BankSend"
@@ -145,13 +147,13 @@ TrBankSend ==
      IN /\ IF c = OK THEN Adopt(r.S) /\ UNCHANGED err
            ELSE err' = <<l, c[1], c[2]>> /\ PrintT(<<"LAWBROKEN", l, c[1], c[2]>>) /\ UNCHANGED <<bal, supply, allow>>
         /\ cls' = Bump(cls, "banksend." \o (IF ~e.admitted THEN "ante" ELSE IF e.ok THEN "ok" ELSE "fail"))
-  /\ n' = n + 1 /\ UNCHANGED <<last, logs, burnt, dev>>
+  /\ n' = n + 1 /\ UNCHANGED <<last, logs, burnt, hist, dev>>
 
 TraceInit ==
   /\ bal = [t \in TraceTokens |-> [h \in TraceHolders |-> 0]]
   /\ supply = [t \in TraceTokens |-> 0]
   /\ allow = [t \in TraceTokens |-> [o \in TraceHolders |-> [s \in TraceHolders |-> N(0)]]]
-  /\ n = 0 /\ last = NoLast /\ logs = <<>> /\ burnt = [t \in TraceTokens |-> 0]
+  /\ n = 0 /\ last = NoLast /\ logs = <<>> /\ burnt = [t \in TraceTokens |-> 0] /\ hist = <<>>
   /\ l = 1 /\ err = <<>> /\ dev = {} /\ cls = [x \in {} |-> 0]
 
 TraceNext ==
